@@ -167,6 +167,7 @@ func (w *stopWriter) Write(p []byte) (int, error) {
 type request struct {
 	depth, hard, soft int
 	stop              string // "none", "pre", "depthN"
+	softTime          int64  // milliseconds, 0 = none (wall-clock dependent: used for C06/C07 only)
 }
 
 // one search on engine s; emits go / info* / ret
@@ -191,6 +192,9 @@ func (r *rec) search(s *search.Search, eng int, fen string, prefix []move.Move, 
 	}
 	if rq.soft >= 0 {
 		opts = append(opts, search.WithSoftNodes(rq.soft))
+	}
+	if rq.softTime > 0 {
+		opts = append(opts, search.WithSoftTime(rq.softTime))
 	}
 	score, m, p := s.Go(b, opts...)
 	after := snap(b)
@@ -341,7 +345,15 @@ func (r *rec) sweep(corpus []string, K int) {
 		case 1:
 			for i := 0; i < 12; i++ {
 				rq := request{depth: 1 + r.rng.Intn(5), hard: -1, soft: -1, stop: "none"}
-				switch r.rng.Intn(6) {
+				switch r.rng.Intn(8) {
+				case 6:
+					rq.softTime = int64(1 + r.rng.Intn(4))
+					rq.depth = 40
+					rq.hard = 200000
+				case 7:
+					// as deep as the engine goes: the ply limit of the search tree and of the pv buffer
+					rq.depth = 64
+					rq.hard = 20000 + r.rng.Intn(60000)
 				case 0:
 					rq.stop = "pre"
 				case 1:
